@@ -284,7 +284,7 @@ func CheckErrors(pc *PathCtx) {
 			continue
 		}
 		if p.HasSrc {
-			if len(failed.SourceArgs) == 0 || !o.Identical(p.Src, failed.SourceArgs[0]).IsTrue() {
+			if len(failed.SourceArgs) == 0 || !o.argIs(p.Src, failed.SourceArgs[0]).IsTrue() {
 				continue
 			}
 		}
